@@ -10,6 +10,7 @@
 //!   conn K [id=HEX]                  raw compatible peer connects to bind #K and handshakes -> c#j=ok|refused|hserr:<why>
 //!   impostor K id=HEX as=TYPE       raw client with an incompatible Socket-Type claiming identity HEX -> i#j=done
 //!   connout                          the socket connects out to a raw listener we own -> o#j=ok|err
+//!   rstburst K n=N                   N clients connect and reset (RST) without yielding to the runtime (use with `ct` in the head) -> rb=done
 //!   staller K off=N mode=stop|close|garbage   raw client that misbehaves after N handshake bytes -> s#j=started
 //!   xchg J                           one message over raw connection J (direction by socket type) -> x#J=ok|fail:<why>
 //!   park                             start a recv() that parks, in a background task (fair-queue sockets)
@@ -130,7 +131,12 @@ pub fn run(args: &[&str]) -> String {
     let mut parts = joined.split(" / ");
     let head: Vec<String> = parts.next().unwrap().split_whitespace().map(|s| s.to_string()).collect();
     let ops: Vec<Vec<String>> = parts.map(|p| p.split_whitespace().map(|s| s.to_string()).collect()).collect();
-    let rt = tokio::runtime::Builder::new_multi_thread().worker_threads(2).enable_all().build().unwrap();
+    // `ct` in the head: one thread only, so that what a case does without awaiting happens before the library's tasks run
+    let rt = if head.iter().any(|h| h == "ct") {
+        tokio::runtime::Builder::new_current_thread().enable_all().build().unwrap()
+    } else {
+        tokio::runtime::Builder::new_multi_thread().worker_threads(2).enable_all().build().unwrap()
+    };
     let out = rt.block_on(async move { scenario(head, ops).await });
     rt.shutdown_timeout(Duration::from_millis(200));
     out.join(" ")
@@ -338,6 +344,32 @@ async fn scenario(head: Vec<String>, ops: Vec<Vec<String>>) -> Vec<String> {
                         out.push(format!("s#{}=started", j));
                     }
                 }
+            }
+            "rstburst" => {
+                // N clients that connect and abort at once (SO_LINGER 0: the kernel sends RST), without yielding to the
+                // runtime in between: under `ct` the listener's accept loop has not seen them yet -> rb=done
+                let n: usize = t[2..].iter().find_map(|o| o.strip_prefix("n=")).unwrap_or("3").parse().unwrap();
+                if let Endpoint::Tcp(h, p) = &bound[t[1].parse::<usize>().unwrap()] {
+                    let host = h.to_string();
+                    let host = host.trim_start_matches('[').trim_end_matches(']').to_string();
+                    for _ in 0..n {
+                        if let Ok(s) = std::net::TcpStream::connect((host.as_str(), *p)) {
+                            use std::os::unix::io::AsRawFd;
+                            let lg = libc::linger { l_onoff: 1, l_linger: 0 };
+                            unsafe {
+                                libc::setsockopt(
+                                    s.as_raw_fd(),
+                                    libc::SOL_SOCKET,
+                                    libc::SO_LINGER,
+                                    &lg as *const _ as *const libc::c_void,
+                                    std::mem::size_of::<libc::linger>() as libc::socklen_t,
+                                );
+                            }
+                            drop(s);
+                        }
+                    }
+                }
+                out.push("rb=done".to_string());
             }
             "xchg" => {
                 let j: usize = t[1].parse().unwrap();
